@@ -70,7 +70,7 @@ __CPROVER_requires (__CPROVER_w_ok (ptr, (size_t) items * 8))
 __CPROVER_requires (gc.delivered >= 0 && gc.delivered <= (1LL << 42) && gc.remaining >= 0 && gc.remaining <= (1LL << 42) && gc.delivered + gc.remaining <= (1LL << 41)
 	&& 0 <= PSF->read_current && PSF->read_current <= FRAMES_MAX)
 __CPROVER_assigns (PSF->error, PSF->read_current, PSF->last_op, __CPROVER_object_whole (&gc), __CPROVER_object_from (ptr))
-__CPROVER_ensures (0 <= __CPROVER_return_value && __CPROVER_return_value <= items)
+__CPROVER_ensures (0 <= __CPROVER_return_value && __CPROVER_return_value <= items && __CPROVER_return_value % CH == 0)
 __CPROVER_ensures (gc.delivered == __CPROVER_old (gc.delivered) + __CPROVER_return_value && gc.reads == __CPROVER_old (gc.reads) + 1 && gc.seek_failed == __CPROVER_old (gc.seek_failed))
 __CPROVER_ensures (gc.remaining >= 0 && gc.remaining <= __CPROVER_old (gc.remaining) - __CPROVER_return_value)
 __CPROVER_ensures (PSF->read_current >= __CPROVER_old (PSF->read_current) && PSF->read_current <= __CPROVER_old (PSF->read_current) + __CPROVER_return_value && PSF->read_current <= FRAMES_MAX)
@@ -98,6 +98,27 @@ __CPROVER_ensures ((vin_seekable && psf->read_double != NULL && !gc.seek_failed 
 __CPROVER_ensures (__CPROVER_return_value >= 0.0) /*@C18.calc_max_not_negative*/
 __CPROVER_ensures (!vin_seekable ==> (__CPROVER_return_value == 0.0 && psf->error == SFE_NOT_SEEKABLE && psf->read_current == vin_rc && psf->norm_double == vin_norm_double)) /*@C09.calc_not_seekable*/
 ;
+
+/* the per-channel variant: peaks [c] dominates every delivered sample of channel c (item n belongs to channel n % CH) */
+int psf_calc_max_all_channels (SF_PRIVATE *psf, double *peaks, int normalize)
+__CPROVER_requires (HANDLE_OK && normalize == vin_normalize && __CPROVER_is_fresh (peaks, CH * 8))
+__CPROVER_assigns (psf->error, psf->norm_double, psf->read_current, psf->write_current, psf->last_op, __CPROVER_object_whole (&gc), __CPROVER_object_whole (peaks))
+__CPROVER_ensures ((vin_seekable && psf->read_double != NULL) ==> psf->norm_double == vin_norm_double) /*@C18.calc_restores_normalisation*/ /*@C17.calc_restores_normalisation*/
+__CPROVER_ensures ((vin_seekable && psf->read_double != NULL && !gc.seek_failed) ==> psf->write_current == vin_wc) /*@C17.calc_restores_write_position*/ /*@C18.calc_restores_write_position*/
+__CPROVER_ensures ((vin_seekable && psf->read_double != NULL && !gc.seek_failed && vin_mode == SFM_READ) ==> psf->read_current == vin_rc) /*@C18.calc_restores_read_position*/ /*@C17.calc_restores_read_position*/
+#ifndef NO_MAX_CLAUSE
+__CPROVER_ensures ((vin_seekable && psf->read_double != NULL && !gc.seek_failed && 0 <= g_n && g_n < gc.delivered) ==> peaks [g_n % CH] >= __CPROVER_fabs (g_val)) /*@C18.calc_channel_max_dominates_every_delivered_sample_of_the_channel*/
+#endif
+__CPROVER_ensures (!vin_seekable ==> (__CPROVER_return_value == SFE_NOT_SEEKABLE && psf->error == SFE_NOT_SEEKABLE && psf->read_current == vin_rc && psf->norm_double == vin_norm_double)) /*@C09.calc_not_seekable*/
+;
+void h_calc_max_all (void)
+{	SF_PRIVATE *psf ; int normalize ; double *peaks ;
+	{ sf_count_t a [4] ; int b [6] ; double d ; vin_rc = a [0] ; vin_wc = a [1] ; vin_frames = a [2] ; g_n = a [3] ; vin_mode = b [0] ; vin_norm_double = b [1] ;
+	  vin_normalize = b [2] ; vin_error = b [3] ; vin_seekable = b [4] ; g_val = d ; gc.remaining = (a [3] < 0 || a [3] > (1LL << 40)) ? 0 : a [3] ; gc.delivered = 0 ; gc.seek_failed = 0 ; gc.reads = 0 ; }
+	int r = psf_calc_max_all_channels (psf, peaks, normalize) ;
+	REACH (gc.reads > 2, "several chunks scanned") ;
+	CANARY () ;
+}
 
 void h_calc_signal_max (void)
 {	SF_PRIVATE *psf ; int normalize ;
